@@ -139,7 +139,7 @@ Proof.
   - (* overlay *) intros t IHt b IHb p Hw Hf Hl. destruct Hl as [L1 L2].
     repeat match type of Hw with (_ && _) = true => apply andb_prop in Hw; let H := fresh "W" in destruct Hw as [Hw H] end.
     repeat match type of Hf with (_ && _) = true => apply andb_prop in Hf; let H := fresh "P" in destruct Hf as [Hf H] end.
-    apply overlay_good; auto.
+    apply overlay_good1; auto.
     + exists 1. auto.
     + eapply overlay_given_of_bools; eauto.
   - (* PNil *) intros ps _ _ _. split; constructor.
